@@ -32,7 +32,17 @@
                             and the dispatcher needs the lock to arm the next one),
                             so two slots suffice (invariant NoStaleClash).
      pending, batch         _EventQueue._queue (deque) and _priority_queue (heap);
-                            len(manager._queue) = Len(pending) + Len(batch)
+                            len(manager._queue) = Len(pending) + Len(batch).  An item is
+                            <<thread, n, group bit>>
+     fresh, bit             _EventQueue._counter, abstracted.  append() increments the
+                            counter on one line and stamps the item with the counter's
+                            CURRENT value on the next; the loop's own fire() does that
+                            without the lock, so the stamp of its generate_events and the
+                            stamp of a foreign event can be equal (the heap then pops the two
+                            in either order).  Stamps never decrease along the deque, so
+                            equal stamps are adjacent: `fresh` says whether the counter was
+                            incremented since the last append, items of equal stamp carry
+                            the same `bit`, neighbours of different stamp a different one.
      flag                   fallback: FallBackGenerator._continue (0/1);
                             poller: number of bytes in the control pipe
      dispatched             log of dispatched foreign events (ghost)
@@ -91,6 +101,7 @@ variables
   timeLeft = [i \in {0, 1} |-> -1],
   geHandler = [i \in {0, 1} |-> "none"],
   pending = <<>>, batch = <<>>,
+  fresh = TRUE, bit = 0,
   flag = 0,
   dispatched = <<>>,
   appended = [f \in Threads |-> 0],
@@ -107,6 +118,9 @@ define {
   AllDispatched == \A f \in Firers : /\ returned[f] = quota[f]
                                      /\ \A k \in 1..quota[f] : <<f, k>> \in Range(dispatched)
   InFlight(f) == appended[f] > returned[f]
+  (* the items the heap may pop next: those that share the smallest stamp *)
+  Lead == {k \in 1..Len(batch) : \A j \in 1..k : batch[j][3] = batch[1][3]}
+  Without(q, k) == [j \in 1..(Len(q) - 1) |-> IF j < k THEN q[j] ELSE q[j + 1]]
 }
 
 macro Acquire(me) {
@@ -115,6 +129,18 @@ macro Acquire(me) {
 }
 macro Release() {
   lockOwner := IF lockDepth = 1 THEN "none" ELSE lockOwner || lockDepth := lockDepth - 1;
+}
+macro Enqueue(who, num) {
+  with (b = IF fresh THEN 1 - bit ELSE bit) {
+    pending := Append(pending, <<who, num, b>>);
+    bit := b;
+  };
+  fresh := FALSE;
+}
+macro EnqueueNew(who, num) {       \* increment and append in one step (broken variants only)
+  pending := Append(pending, <<who, num, 1 - bit>>);
+  bit := 1 - bit;
+  fresh := FALSE;
 }
 macro SetFlag() {
   flag := IF variant = "fallback" THEN 1 ELSE flag + 1;
@@ -145,11 +171,13 @@ T_cond:                                               \* run(): while self.runni
   if (~(running \/ QLen > 0)) { fade := 1 };          \* ... then exactly 3 + 1 more ticks
 T_run:                                                \* tick(): if self._running:
   if (running) {
-T_fire:                                               \* own-thread _fire: _EventQueue.append, no lock
+T_inc:                                                \* own-thread _fire, no lock: _EventQueue.append: self._counter += 1
+    fresh := TRUE;
+T_fire:                                               \* self._queue.append((priority, self._counter, ...))
     with (ng = 1 - gen) {
       gen := ng;
       timeLeft[ng] := -1 || geHandler[ng] := "none";
-      pending := Append(pending, <<"ge", ng>>);
+      Enqueue("ge", ng);
     };
   };
 T_len:                                                \* if len(self._queue): self.flush()
@@ -157,9 +185,11 @@ T_len:                                                \* if len(self._queue): se
 D_snap:                                               \* _flush_batch = count = len(self._queue); deque -> heap
     batch := batch \o pending; pending := <<>>;
 D_pop:                                                \* (event, channels) = heappop(...); dispatcher(event, channels, remaining)
-      ev := Head(batch); rem := Len(batch) - 1; batch := Tail(batch);
+      with (k \in Lead) {
+        ev := batch[k]; rem := Len(batch) - 1; batch := Without(batch, k);
+      };
       if (Foreign(ev)) {
-        dispatched := Append(dispatched, ev);         \* (the dispatch is logged on entry of _dispatcher)
+        dispatched := Append(dispatched, <<ev[1], ev[2]>>);   \* (the dispatch is logged on entry of _dispatcher)
 D_set:  handling := Ev;                               \* self._currently_handling = event
       } else {
         g := ev[2];
@@ -222,7 +252,8 @@ F_next:                                               \* the thread's script: ne
   while (n < Quota(self)) {
     n := n + 1;
     if (Mutant = "append_before_lock") {
-      pending := Append(pending, <<self, n>>); appended[self] := n;
+      EnqueueNew(self, n);
+      appended[self] := n;
     };
     if (self \in Stoppers) {
       await AllDispatched;                            \* the harness ends a run when everything was dispatched
@@ -232,16 +263,22 @@ F_lock:+
     Acquire(self);                                    \* _fire: with self._lock:
 F_rdh:
     h := handling;                                    \* handling = self._currently_handling
+F_inc:
+    if (Mutant \notin {"append_before_lock", "append_after_lock"}) {
+      fresh := TRUE;                                  \* _EventQueue.append: self._counter += 1
+    };
 F_app:
     if (Mutant \notin {"append_before_lock", "append_after_lock"}) {
-      pending := Append(pending, <<self, n>>); appended[self] := n;   \* self._queue.append(...)
+      Enqueue(self, n);                               \* self._queue.append((priority, self._counter, ...))
+      appended[self] := n;
     };
     if (h \in {0, 1}) { call reduce(h, 0) };          \* if isinstance(handling, generate_events): reduce_time_left(0)
 F_unl:
     Release();                                        \* ... and fire() returns
     h := None;
     if (Mutant = "append_after_lock") {
-F_mapp: pending := Append(pending, <<self, n>>); appended[self] := n;
+F_mapp: EnqueueNew(self, n);
+      appended[self] := n;
       returned[self] := n;
     } else {
       returned[self] := n;
@@ -251,8 +288,8 @@ F_mapp: pending := Append(pending, <<self, n>>); appended[self] := n;
 } *)
 \* BEGIN TRANSLATION
 VARIABLES pc, variant, timer, quota, lockOwner, lockDepth, running, handling, 
-          gen, timeLeft, geHandler, pending, batch, flag, dispatched, 
-          appended, returned, stack
+          gen, timeLeft, geHandler, pending, batch, fresh, bit, flag, 
+          dispatched, appended, returned, stack
 
 (* define statement *)
 QLen == Len(pending) + Len(batch)
@@ -266,11 +303,15 @@ AllDispatched == \A f \in Firers : /\ returned[f] = quota[f]
                                    /\ \A k \in 1..quota[f] : <<f, k>> \in Range(dispatched)
 InFlight(f) == appended[f] > returned[f]
 
+Lead == {k \in 1..Len(batch) : \A j \in 1..k : batch[j][3] = batch[1][3]}
+Without(q, k) == [j \in 1..(Len(q) - 1) |-> IF j < k THEN q[j] ELSE q[j + 1]]
+
 VARIABLES ri, rv, ev, rem, tl, g, fade, n, h
 
 vars == << pc, variant, timer, quota, lockOwner, lockDepth, running, handling, 
-           gen, timeLeft, geHandler, pending, batch, flag, dispatched, 
-           appended, returned, stack, ri, rv, ev, rem, tl, g, fade, n, h >>
+           gen, timeLeft, geHandler, pending, batch, fresh, bit, flag, 
+           dispatched, appended, returned, stack, ri, rv, ev, rem, tl, g, 
+           fade, n, h >>
 
 ProcSet == {"loop"} \cup (Threads)
 
@@ -287,6 +328,8 @@ Init == (* Global variables *)
         /\ geHandler = [i \in {0, 1} |-> "none"]
         /\ pending = <<>>
         /\ batch = <<>>
+        /\ fresh = TRUE
+        /\ bit = 0
         /\ flag = 0
         /\ dispatched = <<>>
         /\ appended = [f \in Threads |-> 0]
@@ -315,9 +358,9 @@ R_acq(self) == /\ pc[self] = "R_acq"
                      THEN /\ pc' = [pc EXCEPT ![self] = "R_rel"]
                      ELSE /\ pc' = [pc EXCEPT ![self] = "R_set"]
                /\ UNCHANGED << variant, timer, quota, running, handling, gen, 
-                               timeLeft, geHandler, pending, batch, flag, 
-                               dispatched, appended, returned, stack, ri, rv, 
-                               ev, rem, tl, g, fade, n, h >>
+                               timeLeft, geHandler, pending, batch, fresh, bit, 
+                               flag, dispatched, appended, returned, stack, ri, 
+                               rv, ev, rem, tl, g, fade, n, h >>
 
 R_set(self) == /\ pc[self] = "R_set"
                /\ IF Mutant = "resume_before_assign"
@@ -332,8 +375,9 @@ R_set(self) == /\ pc[self] = "R_set"
                           /\ flag' = flag
                /\ UNCHANGED << variant, timer, quota, lockOwner, lockDepth, 
                                running, handling, gen, geHandler, pending, 
-                               batch, dispatched, appended, returned, stack, 
-                               ri, rv, ev, rem, tl, g, fade, n, h >>
+                               batch, fresh, bit, dispatched, appended, 
+                               returned, stack, ri, rv, ev, rem, tl, g, fade, 
+                               n, h >>
 
 R_hand(self) == /\ pc[self] = "R_hand"
                 /\ IF timeLeft[ri[self]] = 0 /\ geHandler[ri[self]] = "idle"
@@ -341,17 +385,18 @@ R_hand(self) == /\ pc[self] = "R_hand"
                       ELSE /\ pc' = [pc EXCEPT ![self] = "R_rel"]
                 /\ UNCHANGED << variant, timer, quota, lockOwner, lockDepth, 
                                 running, handling, gen, timeLeft, geHandler, 
-                                pending, batch, flag, dispatched, appended, 
-                                returned, stack, ri, rv, ev, rem, tl, g, fade, 
-                                n, h >>
+                                pending, batch, fresh, bit, flag, dispatched, 
+                                appended, returned, stack, ri, rv, ev, rem, tl, 
+                                g, fade, n, h >>
 
 R_res(self) == /\ pc[self] = "R_res"
                /\ flag' = (IF variant = "fallback" THEN 1 ELSE flag + 1)
                /\ pc' = [pc EXCEPT ![self] = "R_rel"]
                /\ UNCHANGED << variant, timer, quota, lockOwner, lockDepth, 
                                running, handling, gen, timeLeft, geHandler, 
-                               pending, batch, dispatched, appended, returned, 
-                               stack, ri, rv, ev, rem, tl, g, fade, n, h >>
+                               pending, batch, fresh, bit, dispatched, 
+                               appended, returned, stack, ri, rv, ev, rem, tl, 
+                               g, fade, n, h >>
 
 R_rel(self) == /\ pc[self] = "R_rel"
                /\ /\ lockDepth' = lockDepth - 1
@@ -361,9 +406,9 @@ R_rel(self) == /\ pc[self] = "R_rel"
                /\ rv' = [rv EXCEPT ![self] = Head(stack[self]).rv]
                /\ stack' = [stack EXCEPT ![self] = Tail(stack[self])]
                /\ UNCHANGED << variant, timer, quota, running, handling, gen, 
-                               timeLeft, geHandler, pending, batch, flag, 
-                               dispatched, appended, returned, ev, rem, tl, g, 
-                               fade, n, h >>
+                               timeLeft, geHandler, pending, batch, fresh, bit, 
+                               flag, dispatched, appended, returned, ev, rem, 
+                               tl, g, fade, n, h >>
 
 reduce(self) == R_acq(self) \/ R_set(self) \/ R_hand(self) \/ R_res(self)
                    \/ R_rel(self)
@@ -376,24 +421,35 @@ T_cond == /\ pc["loop"] = "T_cond"
           /\ pc' = [pc EXCEPT !["loop"] = "T_run"]
           /\ UNCHANGED << variant, timer, quota, lockOwner, lockDepth, running, 
                           handling, gen, timeLeft, geHandler, pending, batch, 
-                          flag, dispatched, appended, returned, stack, ri, rv, 
-                          ev, rem, tl, g, n, h >>
+                          fresh, bit, flag, dispatched, appended, returned, 
+                          stack, ri, rv, ev, rem, tl, g, n, h >>
 
 T_run == /\ pc["loop"] = "T_run"
          /\ IF running
-               THEN /\ pc' = [pc EXCEPT !["loop"] = "T_fire"]
+               THEN /\ pc' = [pc EXCEPT !["loop"] = "T_inc"]
                ELSE /\ pc' = [pc EXCEPT !["loop"] = "T_len"]
          /\ UNCHANGED << variant, timer, quota, lockOwner, lockDepth, running, 
                          handling, gen, timeLeft, geHandler, pending, batch, 
-                         flag, dispatched, appended, returned, stack, ri, rv, 
-                         ev, rem, tl, g, fade, n, h >>
+                         fresh, bit, flag, dispatched, appended, returned, 
+                         stack, ri, rv, ev, rem, tl, g, fade, n, h >>
+
+T_inc == /\ pc["loop"] = "T_inc"
+         /\ fresh' = TRUE
+         /\ pc' = [pc EXCEPT !["loop"] = "T_fire"]
+         /\ UNCHANGED << variant, timer, quota, lockOwner, lockDepth, running, 
+                         handling, gen, timeLeft, geHandler, pending, batch, 
+                         bit, flag, dispatched, appended, returned, stack, ri, 
+                         rv, ev, rem, tl, g, fade, n, h >>
 
 T_fire == /\ pc["loop"] = "T_fire"
           /\ LET ng == 1 - gen IN
                /\ gen' = ng
                /\ /\ geHandler' = [geHandler EXCEPT ![ng] = "none"]
                   /\ timeLeft' = [timeLeft EXCEPT ![ng] = -1]
-               /\ pending' = Append(pending, <<"ge", ng>>)
+               /\ LET b == IF fresh THEN 1 - bit ELSE bit IN
+                    /\ pending' = Append(pending, <<"ge", ng, b>>)
+                    /\ bit' = b
+               /\ fresh' = FALSE
           /\ pc' = [pc EXCEPT !["loop"] = "T_len"]
           /\ UNCHANGED << variant, timer, quota, lockOwner, lockDepth, running, 
                           handling, batch, flag, dispatched, appended, 
@@ -413,24 +469,25 @@ T_len == /\ pc["loop"] = "T_len"
                                           /\ fade' = fade
          /\ UNCHANGED << variant, timer, quota, lockOwner, lockDepth, running, 
                          handling, gen, timeLeft, geHandler, pending, batch, 
-                         flag, dispatched, appended, returned, stack, ri, rv, 
-                         ev, rem, tl, g, n, h >>
+                         fresh, bit, flag, dispatched, appended, returned, 
+                         stack, ri, rv, ev, rem, tl, g, n, h >>
 
 D_snap == /\ pc["loop"] = "D_snap"
           /\ batch' = batch \o pending
           /\ pending' = <<>>
           /\ pc' = [pc EXCEPT !["loop"] = "D_pop"]
           /\ UNCHANGED << variant, timer, quota, lockOwner, lockDepth, running, 
-                          handling, gen, timeLeft, geHandler, flag, dispatched, 
-                          appended, returned, stack, ri, rv, ev, rem, tl, g, 
-                          fade, n, h >>
+                          handling, gen, timeLeft, geHandler, fresh, bit, flag, 
+                          dispatched, appended, returned, stack, ri, rv, ev, 
+                          rem, tl, g, fade, n, h >>
 
 D_pop == /\ pc["loop"] = "D_pop"
-         /\ ev' = Head(batch)
-         /\ rem' = Len(batch) - 1
-         /\ batch' = Tail(batch)
+         /\ \E k \in Lead:
+              /\ ev' = batch[k]
+              /\ rem' = Len(batch) - 1
+              /\ batch' = Without(batch, k)
          /\ IF Foreign(ev')
-               THEN /\ dispatched' = Append(dispatched, ev')
+               THEN /\ dispatched' = Append(dispatched, <<ev'[1], ev'[2]>>)
                     /\ pc' = [pc EXCEPT !["loop"] = "D_set"]
                     /\ g' = g
                ELSE /\ g' = ev'[2]
@@ -439,16 +496,17 @@ D_pop == /\ pc["loop"] = "D_pop"
                           ELSE /\ pc' = [pc EXCEPT !["loop"] = "A_lock"]
                     /\ UNCHANGED dispatched
          /\ UNCHANGED << variant, timer, quota, lockOwner, lockDepth, running, 
-                         handling, gen, timeLeft, geHandler, pending, flag, 
-                         appended, returned, stack, ri, rv, tl, fade, n, h >>
+                         handling, gen, timeLeft, geHandler, pending, fresh, 
+                         bit, flag, appended, returned, stack, ri, rv, tl, 
+                         fade, n, h >>
 
 D_set == /\ pc["loop"] = "D_set"
          /\ handling' = Ev
          /\ pc' = [pc EXCEPT !["loop"] = "D_clr"]
          /\ UNCHANGED << variant, timer, quota, lockOwner, lockDepth, running, 
-                         gen, timeLeft, geHandler, pending, batch, flag, 
-                         dispatched, appended, returned, stack, ri, rv, ev, 
-                         rem, tl, g, fade, n, h >>
+                         gen, timeLeft, geHandler, pending, batch, fresh, bit, 
+                         flag, dispatched, appended, returned, stack, ri, rv, 
+                         ev, rem, tl, g, fade, n, h >>
 
 H_idle == /\ pc["loop"] = "H_idle"
           /\ geHandler' = [geHandler EXCEPT ![g] = "idle"]
@@ -456,9 +514,9 @@ H_idle == /\ pc["loop"] = "H_idle"
                 THEN /\ pc' = [pc EXCEPT !["loop"] = "I_lock"]
                 ELSE /\ pc' = [pc EXCEPT !["loop"] = "P_rd"]
           /\ UNCHANGED << variant, timer, quota, lockOwner, lockDepth, running, 
-                          handling, gen, timeLeft, pending, batch, flag, 
-                          dispatched, appended, returned, stack, ri, rv, ev, 
-                          rem, tl, g, fade, n, h >>
+                          handling, gen, timeLeft, pending, batch, fresh, bit, 
+                          flag, dispatched, appended, returned, stack, ri, rv, 
+                          ev, rem, tl, g, fade, n, h >>
 
 I_lock == /\ pc["loop"] = "I_lock"
           /\ lockOwner \in {"none", "loop"}
@@ -466,9 +524,9 @@ I_lock == /\ pc["loop"] = "I_lock"
              /\ lockOwner' = "loop"
           /\ pc' = [pc EXCEPT !["loop"] = "I_clr"]
           /\ UNCHANGED << variant, timer, quota, running, handling, gen, 
-                          timeLeft, geHandler, pending, batch, flag, 
-                          dispatched, appended, returned, stack, ri, rv, ev, 
-                          rem, tl, g, fade, n, h >>
+                          timeLeft, geHandler, pending, batch, fresh, bit, 
+                          flag, dispatched, appended, returned, stack, ri, rv, 
+                          ev, rem, tl, g, fade, n, h >>
 
 I_clr == /\ pc["loop"] = "I_clr"
          /\ IF Mutant \notin {"clear_after_read", "clear_after_lock"}
@@ -478,8 +536,8 @@ I_clr == /\ pc["loop"] = "I_clr"
          /\ pc' = [pc EXCEPT !["loop"] = "I_unl"]
          /\ UNCHANGED << variant, timer, quota, lockOwner, lockDepth, running, 
                          handling, gen, timeLeft, geHandler, pending, batch, 
-                         dispatched, appended, returned, stack, ri, rv, ev, 
-                         rem, tl, g, fade, n, h >>
+                         fresh, bit, dispatched, appended, returned, stack, ri, 
+                         rv, ev, rem, tl, g, fade, n, h >>
 
 I_unl == /\ pc["loop"] = "I_unl"
          /\ /\ lockDepth' = lockDepth - 1
@@ -488,17 +546,17 @@ I_unl == /\ pc["loop"] = "I_unl"
                THEN /\ pc' = [pc EXCEPT !["loop"] = "I_mclr"]
                ELSE /\ pc' = [pc EXCEPT !["loop"] = "I_rd1"]
          /\ UNCHANGED << variant, timer, quota, running, handling, gen, 
-                         timeLeft, geHandler, pending, batch, flag, dispatched, 
-                         appended, returned, stack, ri, rv, ev, rem, tl, g, 
-                         fade, n, h >>
+                         timeLeft, geHandler, pending, batch, fresh, bit, flag, 
+                         dispatched, appended, returned, stack, ri, rv, ev, 
+                         rem, tl, g, fade, n, h >>
 
 I_mclr == /\ pc["loop"] = "I_mclr"
           /\ flag' = 0
           /\ pc' = [pc EXCEPT !["loop"] = "I_rd1"]
           /\ UNCHANGED << variant, timer, quota, lockOwner, lockDepth, running, 
                           handling, gen, timeLeft, geHandler, pending, batch, 
-                          dispatched, appended, returned, stack, ri, rv, ev, 
-                          rem, tl, g, fade, n, h >>
+                          fresh, bit, dispatched, appended, returned, stack, 
+                          ri, rv, ev, rem, tl, g, fade, n, h >>
 
 I_rd1 == /\ pc["loop"] = "I_rd1"
          /\ tl' = timeLeft[g]
@@ -507,16 +565,16 @@ I_rd1 == /\ pc["loop"] = "I_rd1"
                ELSE /\ pc' = [pc EXCEPT !["loop"] = "I_rd2"]
          /\ UNCHANGED << variant, timer, quota, lockOwner, lockDepth, running, 
                          handling, gen, timeLeft, geHandler, pending, batch, 
-                         flag, dispatched, appended, returned, stack, ri, rv, 
-                         ev, rem, g, fade, n, h >>
+                         fresh, bit, flag, dispatched, appended, returned, 
+                         stack, ri, rv, ev, rem, g, fade, n, h >>
 
 I_rd1b == /\ pc["loop"] = "I_rd1b"
           /\ tl' = timeLeft[g]
           /\ pc' = [pc EXCEPT !["loop"] = "I_twait"]
           /\ UNCHANGED << variant, timer, quota, lockOwner, lockDepth, running, 
                           handling, gen, timeLeft, geHandler, pending, batch, 
-                          flag, dispatched, appended, returned, stack, ri, rv, 
-                          ev, rem, g, fade, n, h >>
+                          fresh, bit, flag, dispatched, appended, returned, 
+                          stack, ri, rv, ev, rem, g, fade, n, h >>
 
 I_twait == /\ pc["loop"] = "I_twait"
            /\ tl = 0 \/ flag > 0 \/ TimeoutOK
@@ -530,8 +588,8 @@ I_twait == /\ pc["loop"] = "I_twait"
            /\ pc' = [pc EXCEPT !["loop"] = "R_acq"]
            /\ UNCHANGED << variant, timer, quota, lockOwner, lockDepth, 
                            running, handling, gen, timeLeft, geHandler, 
-                           pending, batch, flag, dispatched, appended, 
-                           returned, ev, rem, tl, g, fade, n, h >>
+                           pending, batch, fresh, bit, flag, dispatched, 
+                           appended, returned, ev, rem, tl, g, fade, n, h >>
 
 I_rd2 == /\ pc["loop"] = "I_rd2"
          /\ IF timeLeft[g] < 0
@@ -541,32 +599,32 @@ I_rd2 == /\ pc["loop"] = "I_rd2"
                ELSE /\ pc' = [pc EXCEPT !["loop"] = "D_clr"]
          /\ UNCHANGED << variant, timer, quota, lockOwner, lockDepth, running, 
                          handling, gen, timeLeft, geHandler, pending, batch, 
-                         flag, dispatched, appended, returned, stack, ri, rv, 
-                         ev, rem, tl, g, fade, n, h >>
+                         fresh, bit, flag, dispatched, appended, returned, 
+                         stack, ri, rv, ev, rem, tl, g, fade, n, h >>
 
 I_wait == /\ pc["loop"] = "I_wait"
           /\ flag > 0
           /\ pc' = [pc EXCEPT !["loop"] = "I_rd2"]
           /\ UNCHANGED << variant, timer, quota, lockOwner, lockDepth, running, 
                           handling, gen, timeLeft, geHandler, pending, batch, 
-                          flag, dispatched, appended, returned, stack, ri, rv, 
-                          ev, rem, tl, g, fade, n, h >>
+                          fresh, bit, flag, dispatched, appended, returned, 
+                          stack, ri, rv, ev, rem, tl, g, fade, n, h >>
 
 I_mclr2 == /\ pc["loop"] = "I_mclr2"
            /\ flag' = 0
            /\ pc' = [pc EXCEPT !["loop"] = "I_wait"]
            /\ UNCHANGED << variant, timer, quota, lockOwner, lockDepth, 
                            running, handling, gen, timeLeft, geHandler, 
-                           pending, batch, dispatched, appended, returned, 
-                           stack, ri, rv, ev, rem, tl, g, fade, n, h >>
+                           pending, batch, fresh, bit, dispatched, appended, 
+                           returned, stack, ri, rv, ev, rem, tl, g, fade, n, h >>
 
 P_rd == /\ pc["loop"] = "P_rd"
         /\ tl' = timeLeft[g]
         /\ pc' = [pc EXCEPT !["loop"] = "P_sel"]
         /\ UNCHANGED << variant, timer, quota, lockOwner, lockDepth, running, 
                         handling, gen, timeLeft, geHandler, pending, batch, 
-                        flag, dispatched, appended, returned, stack, ri, rv, 
-                        ev, rem, g, fade, n, h >>
+                        fresh, bit, flag, dispatched, appended, returned, 
+                        stack, ri, rv, ev, rem, g, fade, n, h >>
 
 P_sel == /\ pc["loop"] = "P_sel"
          /\ tl = 0 \/ flag > 0 \/ (tl > 0 /\ TimeoutOK)
@@ -575,24 +633,24 @@ P_sel == /\ pc["loop"] = "P_sel"
                ELSE /\ pc' = [pc EXCEPT !["loop"] = "D_clr"]
          /\ UNCHANGED << variant, timer, quota, lockOwner, lockDepth, running, 
                          handling, gen, timeLeft, geHandler, pending, batch, 
-                         flag, dispatched, appended, returned, stack, ri, rv, 
-                         ev, rem, tl, g, fade, n, h >>
+                         fresh, bit, flag, dispatched, appended, returned, 
+                         stack, ri, rv, ev, rem, tl, g, fade, n, h >>
 
 P_drain == /\ pc["loop"] = "P_drain"
            /\ flag' = flag - 1
            /\ pc' = [pc EXCEPT !["loop"] = "D_clr"]
            /\ UNCHANGED << variant, timer, quota, lockOwner, lockDepth, 
                            running, handling, gen, timeLeft, geHandler, 
-                           pending, batch, dispatched, appended, returned, 
-                           stack, ri, rv, ev, rem, tl, g, fade, n, h >>
+                           pending, batch, fresh, bit, dispatched, appended, 
+                           returned, stack, ri, rv, ev, rem, tl, g, fade, n, h >>
 
 M_set == /\ pc["loop"] = "M_set"
          /\ handling' = g
          /\ pc' = [pc EXCEPT !["loop"] = "M_test"]
          /\ UNCHANGED << variant, timer, quota, lockOwner, lockDepth, running, 
-                         gen, timeLeft, geHandler, pending, batch, flag, 
-                         dispatched, appended, returned, stack, ri, rv, ev, 
-                         rem, tl, g, fade, n, h >>
+                         gen, timeLeft, geHandler, pending, batch, fresh, bit, 
+                         flag, dispatched, appended, returned, stack, ri, rv, 
+                         ev, rem, tl, g, fade, n, h >>
 
 M_test == /\ pc["loop"] = "M_test"
           /\ IF rem > 0 \/ QLen > 0 \/ ~running
@@ -608,8 +666,8 @@ M_test == /\ pc["loop"] = "M_test"
                      /\ UNCHANGED << stack, ri, rv >>
           /\ UNCHANGED << variant, timer, quota, lockOwner, lockDepth, running, 
                           handling, gen, timeLeft, geHandler, pending, batch, 
-                          flag, dispatched, appended, returned, ev, rem, tl, g, 
-                          fade, n, h >>
+                          fresh, bit, flag, dispatched, appended, returned, ev, 
+                          rem, tl, g, fade, n, h >>
 
 M_end == /\ pc["loop"] = "M_end"
          /\ IF timer
@@ -617,8 +675,8 @@ M_end == /\ pc["loop"] = "M_end"
                ELSE /\ pc' = [pc EXCEPT !["loop"] = "H_idle"]
          /\ UNCHANGED << variant, timer, quota, lockOwner, lockDepth, running, 
                          handling, gen, timeLeft, geHandler, pending, batch, 
-                         flag, dispatched, appended, returned, stack, ri, rv, 
-                         ev, rem, tl, g, fade, n, h >>
+                         fresh, bit, flag, dispatched, appended, returned, 
+                         stack, ri, rv, ev, rem, tl, g, fade, n, h >>
 
 A_lock == /\ pc["loop"] = "A_lock"
           /\ lockOwner \in {"none", "loop"}
@@ -626,17 +684,17 @@ A_lock == /\ pc["loop"] = "A_lock"
              /\ lockOwner' = "loop"
           /\ pc' = [pc EXCEPT !["loop"] = "A_set"]
           /\ UNCHANGED << variant, timer, quota, running, handling, gen, 
-                          timeLeft, geHandler, pending, batch, flag, 
-                          dispatched, appended, returned, stack, ri, rv, ev, 
-                          rem, tl, g, fade, n, h >>
+                          timeLeft, geHandler, pending, batch, fresh, bit, 
+                          flag, dispatched, appended, returned, stack, ri, rv, 
+                          ev, rem, tl, g, fade, n, h >>
 
 A_set == /\ pc["loop"] = "A_set"
          /\ handling' = g
          /\ pc' = [pc EXCEPT !["loop"] = "A_test"]
          /\ UNCHANGED << variant, timer, quota, lockOwner, lockDepth, running, 
-                         gen, timeLeft, geHandler, pending, batch, flag, 
-                         dispatched, appended, returned, stack, ri, rv, ev, 
-                         rem, tl, g, fade, n, h >>
+                         gen, timeLeft, geHandler, pending, batch, fresh, bit, 
+                         flag, dispatched, appended, returned, stack, ri, rv, 
+                         ev, rem, tl, g, fade, n, h >>
 
 A_test == /\ pc["loop"] = "A_test"
           /\ IF rem > 0 \/ (Mutant # "no_qlen" /\ QLen > 0) \/ ~running
@@ -652,8 +710,8 @@ A_test == /\ pc["loop"] = "A_test"
                      /\ UNCHANGED << stack, ri, rv >>
           /\ UNCHANGED << variant, timer, quota, lockOwner, lockDepth, running, 
                           handling, gen, timeLeft, geHandler, pending, batch, 
-                          flag, dispatched, appended, returned, ev, rem, tl, g, 
-                          fade, n, h >>
+                          fresh, bit, flag, dispatched, appended, returned, ev, 
+                          rem, tl, g, fade, n, h >>
 
 A_unl == /\ pc["loop"] = "A_unl"
          /\ /\ lockDepth' = lockDepth - 1
@@ -662,17 +720,17 @@ A_unl == /\ pc["loop"] = "A_unl"
                THEN /\ pc' = [pc EXCEPT !["loop"] = "H_tim"]
                ELSE /\ pc' = [pc EXCEPT !["loop"] = "H_idle"]
          /\ UNCHANGED << variant, timer, quota, running, handling, gen, 
-                         timeLeft, geHandler, pending, batch, flag, dispatched, 
-                         appended, returned, stack, ri, rv, ev, rem, tl, g, 
-                         fade, n, h >>
+                         timeLeft, geHandler, pending, batch, fresh, bit, flag, 
+                         dispatched, appended, returned, stack, ri, rv, ev, 
+                         rem, tl, g, fade, n, h >>
 
 H_tim == /\ pc["loop"] = "H_tim"
          /\ geHandler' = [geHandler EXCEPT ![g] = "timer"]
          /\ pc' = [pc EXCEPT !["loop"] = "H_low"]
          /\ UNCHANGED << variant, timer, quota, lockOwner, lockDepth, running, 
-                         handling, gen, timeLeft, pending, batch, flag, 
-                         dispatched, appended, returned, stack, ri, rv, ev, 
-                         rem, tl, g, fade, n, h >>
+                         handling, gen, timeLeft, pending, batch, fresh, bit, 
+                         flag, dispatched, appended, returned, stack, ri, rv, 
+                         ev, rem, tl, g, fade, n, h >>
 
 H_low == /\ pc["loop"] = "H_low"
          /\ \/ /\ /\ ri' = [ri EXCEPT !["loop"] = g]
@@ -688,8 +746,8 @@ H_low == /\ pc["loop"] = "H_low"
                /\ UNCHANGED <<stack, ri, rv>>
          /\ UNCHANGED << variant, timer, quota, lockOwner, lockDepth, running, 
                          handling, gen, timeLeft, geHandler, pending, batch, 
-                         flag, dispatched, appended, returned, ev, rem, tl, g, 
-                         fade, n, h >>
+                         fresh, bit, flag, dispatched, appended, returned, ev, 
+                         rem, tl, g, fade, n, h >>
 
 D_clr == /\ pc["loop"] = "D_clr"
          /\ handling' = None
@@ -705,30 +763,33 @@ D_clr == /\ pc["loop"] = "D_clr"
                                      ELSE /\ pc' = [pc EXCEPT !["loop"] = "Done"]
                                           /\ fade' = fade
          /\ UNCHANGED << variant, timer, quota, lockOwner, lockDepth, running, 
-                         gen, timeLeft, geHandler, pending, batch, flag, 
-                         dispatched, appended, returned, stack, ri, rv, ev, 
-                         rem, tl, g, n, h >>
+                         gen, timeLeft, geHandler, pending, batch, fresh, bit, 
+                         flag, dispatched, appended, returned, stack, ri, rv, 
+                         ev, rem, tl, g, n, h >>
 
-loop == T_cond \/ T_run \/ T_fire \/ T_len \/ D_snap \/ D_pop \/ D_set
-           \/ H_idle \/ I_lock \/ I_clr \/ I_unl \/ I_mclr \/ I_rd1
-           \/ I_rd1b \/ I_twait \/ I_rd2 \/ I_wait \/ I_mclr2 \/ P_rd
-           \/ P_sel \/ P_drain \/ M_set \/ M_test \/ M_end \/ A_lock
-           \/ A_set \/ A_test \/ A_unl \/ H_tim \/ H_low \/ D_clr
+loop == T_cond \/ T_run \/ T_inc \/ T_fire \/ T_len \/ D_snap \/ D_pop
+           \/ D_set \/ H_idle \/ I_lock \/ I_clr \/ I_unl \/ I_mclr
+           \/ I_rd1 \/ I_rd1b \/ I_twait \/ I_rd2 \/ I_wait \/ I_mclr2
+           \/ P_rd \/ P_sel \/ P_drain \/ M_set \/ M_test \/ M_end
+           \/ A_lock \/ A_set \/ A_test \/ A_unl \/ H_tim \/ H_low \/ D_clr
 
 F_next(self) == /\ pc[self] = "F_next"
                 /\ IF n[self] < Quota(self)
                       THEN /\ n' = [n EXCEPT ![self] = n[self] + 1]
                            /\ IF Mutant = "append_before_lock"
-                                 THEN /\ pending' = Append(pending, <<self, n'[self]>>)
+                                 THEN /\ pending' = Append(pending, <<self, n'[self], 1 - bit>>)
+                                      /\ bit' = 1 - bit
+                                      /\ fresh' = FALSE
                                       /\ appended' = [appended EXCEPT ![self] = n'[self]]
                                  ELSE /\ TRUE
-                                      /\ UNCHANGED << pending, appended >>
+                                      /\ UNCHANGED << pending, fresh, bit, 
+                                                      appended >>
                            /\ IF self \in Stoppers
                                  THEN /\ AllDispatched
                                       /\ pc' = [pc EXCEPT ![self] = "S_stop"]
                                  ELSE /\ pc' = [pc EXCEPT ![self] = "F_lock"]
                       ELSE /\ pc' = [pc EXCEPT ![self] = "Done"]
-                           /\ UNCHANGED << pending, appended, n >>
+                           /\ UNCHANGED << pending, fresh, bit, appended, n >>
                 /\ UNCHANGED << variant, timer, quota, lockOwner, lockDepth, 
                                 running, handling, gen, timeLeft, geHandler, 
                                 batch, flag, dispatched, returned, stack, ri, 
@@ -740,25 +801,40 @@ F_lock(self) == /\ pc[self] = "F_lock"
                    /\ lockOwner' = self
                 /\ pc' = [pc EXCEPT ![self] = "F_rdh"]
                 /\ UNCHANGED << variant, timer, quota, running, handling, gen, 
-                                timeLeft, geHandler, pending, batch, flag, 
-                                dispatched, appended, returned, stack, ri, rv, 
-                                ev, rem, tl, g, fade, n, h >>
+                                timeLeft, geHandler, pending, batch, fresh, 
+                                bit, flag, dispatched, appended, returned, 
+                                stack, ri, rv, ev, rem, tl, g, fade, n, h >>
 
 F_rdh(self) == /\ pc[self] = "F_rdh"
                /\ h' = [h EXCEPT ![self] = handling]
+               /\ pc' = [pc EXCEPT ![self] = "F_inc"]
+               /\ UNCHANGED << variant, timer, quota, lockOwner, lockDepth, 
+                               running, handling, gen, timeLeft, geHandler, 
+                               pending, batch, fresh, bit, flag, dispatched, 
+                               appended, returned, stack, ri, rv, ev, rem, tl, 
+                               g, fade, n >>
+
+F_inc(self) == /\ pc[self] = "F_inc"
+               /\ IF Mutant \notin {"append_before_lock", "append_after_lock"}
+                     THEN /\ fresh' = TRUE
+                     ELSE /\ TRUE
+                          /\ fresh' = fresh
                /\ pc' = [pc EXCEPT ![self] = "F_app"]
                /\ UNCHANGED << variant, timer, quota, lockOwner, lockDepth, 
                                running, handling, gen, timeLeft, geHandler, 
-                               pending, batch, flag, dispatched, appended, 
+                               pending, batch, bit, flag, dispatched, appended, 
                                returned, stack, ri, rv, ev, rem, tl, g, fade, 
-                               n >>
+                               n, h >>
 
 F_app(self) == /\ pc[self] = "F_app"
                /\ IF Mutant \notin {"append_before_lock", "append_after_lock"}
-                     THEN /\ pending' = Append(pending, <<self, n[self]>>)
+                     THEN /\ LET b == IF fresh THEN 1 - bit ELSE bit IN
+                               /\ pending' = Append(pending, <<self, n[self], b>>)
+                               /\ bit' = b
+                          /\ fresh' = FALSE
                           /\ appended' = [appended EXCEPT ![self] = n[self]]
                      ELSE /\ TRUE
-                          /\ UNCHANGED << pending, appended >>
+                          /\ UNCHANGED << pending, fresh, bit, appended >>
                /\ IF h[self] \in {0, 1}
                      THEN /\ /\ ri' = [ri EXCEPT ![self] = h[self]]
                              /\ rv' = [rv EXCEPT ![self] = 0]
@@ -785,12 +861,14 @@ F_unl(self) == /\ pc[self] = "F_unl"
                      ELSE /\ returned' = [returned EXCEPT ![self] = n[self]]
                           /\ pc' = [pc EXCEPT ![self] = "F_next"]
                /\ UNCHANGED << variant, timer, quota, running, handling, gen, 
-                               timeLeft, geHandler, pending, batch, flag, 
-                               dispatched, appended, stack, ri, rv, ev, rem, 
-                               tl, g, fade, n >>
+                               timeLeft, geHandler, pending, batch, fresh, bit, 
+                               flag, dispatched, appended, stack, ri, rv, ev, 
+                               rem, tl, g, fade, n >>
 
 F_mapp(self) == /\ pc[self] = "F_mapp"
-                /\ pending' = Append(pending, <<self, n[self]>>)
+                /\ pending' = Append(pending, <<self, n[self], 1 - bit>>)
+                /\ bit' = 1 - bit
+                /\ fresh' = FALSE
                 /\ appended' = [appended EXCEPT ![self] = n[self]]
                 /\ returned' = [returned EXCEPT ![self] = n[self]]
                 /\ pc' = [pc EXCEPT ![self] = "F_next"]
@@ -804,11 +882,13 @@ S_stop(self) == /\ pc[self] = "S_stop"
                 /\ pc' = [pc EXCEPT ![self] = "F_lock"]
                 /\ UNCHANGED << variant, timer, quota, lockOwner, lockDepth, 
                                 handling, gen, timeLeft, geHandler, pending, 
-                                batch, flag, dispatched, appended, returned, 
-                                stack, ri, rv, ev, rem, tl, g, fade, n, h >>
+                                batch, fresh, bit, flag, dispatched, appended, 
+                                returned, stack, ri, rv, ev, rem, tl, g, fade, 
+                                n, h >>
 
-firer(self) == F_next(self) \/ F_lock(self) \/ F_rdh(self) \/ F_app(self)
-                  \/ F_unl(self) \/ F_mapp(self) \/ S_stop(self)
+firer(self) == F_next(self) \/ F_lock(self) \/ F_rdh(self) \/ F_inc(self)
+                  \/ F_app(self) \/ F_unl(self) \/ F_mapp(self)
+                  \/ S_stop(self)
 
 (* Allow infinite stuttering to prevent deadlock on termination. *)
 Terminating == /\ \A self \in ProcSet: pc[self] = "Done"
@@ -847,13 +927,15 @@ InitIdle ==
         /\ geHandler = [i \in {0, 1} |-> IF i = 0 THEN "idle" ELSE "none"]
         /\ pending = <<>>
         /\ batch = <<>>
+        /\ fresh = TRUE
+        /\ bit = 0
         /\ flag = 0
         /\ dispatched = <<>>
         /\ appended = [f \in Threads |-> 0]
         /\ returned = [f \in Threads |-> 0]
         /\ ri = [ self \in ProcSet |-> 0]
         /\ rv = [ self \in ProcSet |-> 0]
-        /\ ev = <<"ge", 0>>
+        /\ ev = <<"ge", 0, 0>>
         /\ rem = 0
         /\ tl = -1
         /\ g = 0
@@ -899,6 +981,7 @@ TypeOK == /\ lockOwner \in {"none", "loop"} \cup Threads
           /\ flag \in 0..(Cardinality(Firers) * MaxFires + 2)
           /\ (variant = "fallback" => flag \in {0, 1})
           /\ variant \in Variants /\ timer \in Timers /\ quota \in Quotas
+          /\ fresh \in BOOLEAN /\ bit \in {0, 1} /\ Cardinality(Lead) <= 2
 
 (* liveness: under weak fairness of every thread (strong for the lock), with
    the timeouts restricted by TimeoutOK, every fired event is dispatched, and
